@@ -157,7 +157,11 @@ func (cs *C19Case) csvBytes() []byte {
 // deadlocked process, not a slow one). A child that is still making progress is given up to
 // 5 minutes; running out of that is harness trouble (-3), never a violation.
 func runBin(args ...string) (int, string) {
-	cmd := exec.Command(os.Getenv("VERIF_UPDOG_BIN"), args...)
+	return runCmd(exec.Command(os.Getenv("VERIF_UPDOG_BIN"), args...))
+}
+
+// runCmd is runBin for a prepared command (own environment, a shell wrapper that execs the binary).
+func runCmd(cmd *exec.Cmd) (int, string) {
 	var out bytes.Buffer
 	cmd.Stdout, cmd.Stderr = &out, &out
 	if err := cmd.Start(); err != nil {
